@@ -7,7 +7,7 @@ from .. import census
 from ..ir import walk
 from ..loader import AnalysisError
 from ..facets.pred import Pred
-from .common import CONFIG_MOD, call_args, ext_name, is_ext_call
+from .common import COMPUTE_MOD as COMPUTE_MOD_, CONFIG_MOD, call_args, ext_name, is_ext_call
 
 EXPLANATION = (
     "Decided: R16.1 the header is built from the WHOLE flattened model_dump() under 'HIERARCH Config' with "
@@ -642,25 +642,88 @@ def run(ck, ctx):
               PREFIX_W.split(" ", 1)[1] + " " == "Config ", obj, func, f"{len(rkeys)} keys read")
     ck.guard(reader, "R16.2/R16.3")
 
-    # ---------------------------------------------------------------- R16.4 final write
+    # ---------------------------------------------------------------- R16.4 / R16.5 the run command
     def r164():
-        sites = census.calls(ctx.prog, lambda q: q.endswith(".write") or q == "write")
-        n = 0
-        per_mod = {}
-        for m, node, q, enc in sites:
-            if m.name not in ("nuspacesim.apps.run", "nuspacesim.compute"):
+        """the command `nuspacesim run` evaluated as a whole: configuration loaded and overridden, compute(), final
+        write.  R16.4: every write of a results table below it is format='fits', overwrite=True.  R16.5: the table
+        written (and every table compute() returns) was created by results_table.init from THE configuration of
+        the run - the object the command loaded and passed to compute()."""
+        fi = I.function("nuspacesim.apps.run", "run")
+        I.watch_calls |= {"compute", "init", "config_from_toml"}
+        log0 = len(I.call_log)
+        ins = {a.arg: I.input("cli:" + a.arg) for a in fi.node.args.args}
+        r = I.run(I.func_node(fi), [], dict(ins))
+        log = I.call_log[log0:]
+        if r.value is None:
+            raise AnalysisError("the run command has no normal exit")
+        writes = [e for e in r.effects if e.kind == "io-write" and e.node is not None and e.node.op == "MCall" and
+                  e.node.attr[0] == "write"]
+        n_cli = n_staged = 0
+        seen = set()
+        for e in writes:
+            chain = [f if isinstance(f, str) else getattr(f, "qualname", str(f)) for f in e.funcs()]
+            direct = "compute" not in chain
+            n_cli += direct
+            n_staged += not direct
+            if e.where() in seen:
                 continue
-            kws = {k.arg: k.value for k in node.keywords}
-            if "format" not in kws:
-                continue
-            n += 1
-            per_mod[m.name] = per_mod.get(m.name, 0) + 1
+            seen.add(e.where())
+            pos, kws = call_args(e.node)
             fmt, ov = kws.get("format"), kws.get("overwrite")
-            ok = isinstance(fmt, ast.Constant) and fmt.value == "fits" and isinstance(ov, ast.Constant) and ov.value is True
-            ck.ob("R16.4", f"results table written with format='fits', overwrite=True in {enc}", ok,
-                  (m.relpath, node.lineno, 0), enc, ast.unparse(node)[:120])
-        ck.floor("R16.4", per_mod.get("nuspacesim.apps.run", 0), 1, "final write of the results table in the CLI")
-        ck.floor("R16.4", per_mod.get("nuspacesim.compute", 0), 1, "staged write of the results table in compute()")
+            ok = fmt is not None and fmt.op == "Const" and fmt.attr == "fits" and ov is not None and ov.op == "Const" \
+                and ov.attr is True
+            ck.ob("R16.4", f"results table written with format='fits', overwrite=True in {chain[-1]}", ok, e.node,
+                  chain[-1], g.show(e.node, 2)[:120])
+        ck.floor("R16.4", n_cli, 1, "final write of the results table in the CLI")
+        ck.floor("R16.4", n_staged, 1, "staged write of the results table below compute()")
+        # ---- R16.5
+        loads = [c for c in log if c[0].qualname == "config_from_toml"]
+        comps = [c for c in log if c[0].qualname == "compute" and c[0].module.name == COMPUTE_MOD_]
+        inits = [c for c in log if c[0].qualname == "init" and c[0].module.name.endswith("results_table")]
+        ck.floor("R16.5", len(loads), 1, "configuration loaded by the run command")
+        ck.floor("R16.5", len(comps), 1, "compute() called by the run command")
+        ck.floor("R16.5", len(inits), 1, "results table created below the run command")
+        run_cfg = I.res(loads[0][3], r.st)
+
+        def first_arg(c):
+            ent = getattr(c[2], "entry", c[2])
+            names = [a.arg for a in c[0].node.args.posonlyargs + c[0].node.args.args]
+            v = ent.get(names[0]) if names else None
+            return None if v is None else I.res(v, r.st)
+        for c in comps:
+            a = first_arg(c)
+            ck.ob("R16.5", "compute() is given the configuration the command loaded (and overrode from its options) - "
+                  "the same object, not a second load or a default", a is not None and a is run_cfg, c[3], "run",
+                  g.show(a, 2) if a is not None else "no configuration argument")
+        for c in inits:
+            a = first_arg(c)
+            ck.ob("R16.5", "every results table is created from the configuration of the run (results_table.init is given "
+                  "the object compute() received)", a is not None and a is run_cfg, c[3], "compute",
+                  (g.show(a, 2) if a is not None else "no configuration argument") + f" at {c[1].where() if hasattr(c[1], 'where') else ''}")
+        good = {id(x) for c in inits if first_arg(c) is run_cfg for x in (c[3], I.res(c[3], r.st))}
+
+        def arms(v, depth=0):
+            if v.op == "Phi" and depth < 12:
+                return arms(v.args[1], depth + 1) + arms(v.args[2], depth + 1)
+            return [v]
+
+        def from_run_table(v):
+            return any(id(x) in good for x in walk([v]))
+        for c in comps:
+            a_ = arms(c[3])
+            bad = [x for x in a_ if not from_run_table(x)]
+            ck.ob("R16.5", "every value compute() returns is the table created from the run's configuration", not bad,
+                  bad[0] if bad else c[3], "compute", f"{len(a_)} return value(s); " +
+                  "; ".join(g.show(x, 2)[:100] for x in bad[:2]))
+        for e in writes:
+            recv = e.node.args[0]
+            bad = [x for x in arms(recv) if not from_run_table(x)]
+            if bad:
+                ck.ob("R16.5", "the table written is the one created from the run's configuration", False, e.node,
+                      "run", g.show(bad[0], 2)[:160])
+        ck.ob("R16.5", "every write below the run command writes the table created from the run's configuration",
+              all(from_run_table(x) for e in writes for x in arms(e.node.args[0])), r.value, "run",
+              f"{len(writes)} write(s) inspected")
     ck.guard(r164, "R16.4")
 
 
